@@ -118,6 +118,9 @@ class SchedLock:
         self.sched = sched
         self.owner = None
         self.real = threading.Lock()
+        if sched.me() is not None:
+            # a lock created by a running thread (lazily, on first use): creating it is a point where another thread may run
+            sched.yield_point("lock-create")
 
     def acquire(self, blocking=True, timeout=-1):
         if self.sched.me() is None:
